@@ -15,6 +15,7 @@ from sqllineage.drawing import draw_lineage_graph
 from sqllineage.io import to_cytoscape
 from sqllineage.utils.constant import LineageLevel
 from sqllineage.utils.helpers import split, trim_comment
+from sqllineage.utils.verif import emit as _verif_emit
 
 logger = logging.getLogger(__name__)
 
@@ -203,6 +204,9 @@ Target Tables:
             stmt_holders = []
             for stmt in self._stmt:
                 stmt_holder = analyzer.analyze(stmt, session.metadata_provider)
+                _verif_emit(
+                    "runner.statement", runner=self, sql=stmt, holder=stmt_holder
+                )
                 if write := stmt_holder.write:
                     tgt_table = next(iter(write))
                     if isinstance(tgt_table, Table) and (
